@@ -9,6 +9,16 @@ ROOT = pathlib.Path(__file__).resolve().parent.parent
 
 # id -> (technique, level text, level_note, design_ref)
 CHECKS = {
+    "C02": (
+        "round-trip differential: JSON fixed point + observable-structure equality through the public query API, on builder programs composed with mutation histories, planted attribute-rich ops and arbitrary JSON metadata",
+        "For every generated HUGR (four strata: programs, programs+mutation history, history-only with holes and index reuse, planted "
+        "attribute-rich ops) load_json(to_json(h)) must succeed, re-serialize to the same JSON value path by path, and show the same encoded "
+        "op, hierarchy with child order, metadata and link multiset on every port (order links included) under order-preserving renumbering; "
+        "a second round trip must be a fixed point.",
+        "Trusted: vf/oracles/observe.py. Histories only attach links to ports the ops have. Two index-reuse mechanisms are open known findings "
+        "(known_findings.json) and are reported as KNOWN-FINDING; strata without index reuse keep full sensitivity.",
+        "DESIGN.md §3 C02",
+    ),
     "C04": (
         "history + executable model: lock-step sequential port-multigraph model over bounded-exhaustive and random call histories; structural invariant hook at every step",
         "Every step of every history (all 87k histories of length <= 3 over a 44-step alphabet in quick, length <= 4 in thorough; thousands of "
